@@ -533,11 +533,9 @@ unsafe fn open_common(dirfd: c_int, path: *const c_char, flags: c_int, mode: mod
             } else {
                 EffectKind::OpenRead
             };
-            if flags & libc::O_DIRECTORY == 0 || kind != EffectKind::OpenRead {
-                if let Decision::Fail(e) = report(kind, p.clone(), None, -1, flags, std::ptr::null(), 0) {
-                    set_errno(e);
-                    return -1;
-                }
+            if let Decision::Fail(e) = report(kind, p.clone(), None, -1, flags, std::ptr::null(), 0) {
+                set_errno(e);
+                return -1;
             }
             reported_path = Some(p);
         }
